@@ -131,11 +131,11 @@ func main() {
 		}
 		second, _ := refage.WrapScrypt(fk, pass, lab.Plain(16, 79), 2)
 		xst, _ := refage.WrapX25519(fk, keys.X(0).XPublic, lab.Plain(32, 80))
-		others := []refage.Stanza{xst, {Type: "grease-1", Args: []string{"a"}, Body: []byte{1, 2, 3}}, second, {Type: "scrypt"}, {Type: "Scrypt", Args: good.Args, Body: good.Body}}
-		oname := []string{"X25519", "grease", "scrypt2", "scrypt-bare", "Scrypt-case"}
+		others := []refage.Stanza{xst, {Type: "grease-1", Args: []string{"a"}, Body: []byte{1, 2, 3}}, second, {Type: "scrypt"}, {Type: "Scrypt", Args: good.Args, Body: good.Body}, {Type: "x-grease", Body: []byte("g")}, {Type: "scrypt-grease", Args: good.Args, Body: good.Body}}
+		oname := []string{"X25519", "grease", "scrypt2", "scrypt-bare", "Scrypt-case", "x-grease", "scrypt-grease"}
 		maxSt := c.Pick(5, 7)
 		plain := []byte("secret")
-		c.Bound("headers of 1..%d stanzas with one correct scrypt stanza at every position among {X25519, grease, second scrypt, bare scrypt, wrong-case type} stanzas (correct MAC, valid payload), decrypted with the right passphrase", maxSt)
+		c.Bound("headers of 1..%d stanzas with one correct scrypt stanza at every position among {X25519, grease-1, second scrypt, bare scrypt, wrong-case type, x-grease, scrypt-grease} stanzas (correct MAC, valid payload), decrypted with the right passphrase", maxSt)
 		var rec2 func(cur []int)
 		cnt = 0
 		rec2 = func(cur []int) {
@@ -275,6 +275,45 @@ func main() {
 				for _, call := range log {
 					if call.N > 1<<uint(max) {
 						c.Fail("work-bound-exceeded", id, fmt.Sprintf("derivation with N=%d exceeds the configured maximum 2^%d", call.N, max), det)
+					}
+				}
+				// an identity that has already opened a valid stanza with the same salt and body: the history must not matter
+				if !wantOK {
+					v := 2
+					if max < 2 {
+						v = 1
+					}
+					valid, _ := refage.WrapScrypt(fk, pass, salt, v)
+					relabelled := refage.Stanza{Type: valid.Type, Args: []string{valid.Args[0], w.text}, Body: valid.Body}
+					used, _ := age.NewScryptIdentity(pass)
+					if m > 0 {
+						used.SetMaxWorkFactor(m)
+					}
+					c.Eval(1)
+					var k1, k2 []byte
+					var e1, e2 error
+					var log2 []scrypt.VerifCall
+					func() {
+						defer func() {
+							if r := recover(); r != nil {
+								pan = fmt.Sprint(r)
+							}
+						}()
+						k1, e1 = used.Unwrap(lab.FromRef([]refage.Stanza{valid}))
+						scrypt.VerifLog = nil
+						k2, e2 = used.Unwrap(lab.FromRef([]refage.Stanza{relabelled}))
+						log2 = append([]scrypt.VerifCall{}, scrypt.VerifLog...)
+					}()
+					det2 := map[string]interface{}{"max_work_factor": max, "first": fmt.Sprintf("valid stanza, work factor %d -> %v", v, lab.ErrText(e1)), "then_same_salt_and_body_with_work_factor": w.text, "err": lab.ErrText(e2), "scrypt_calls": fmt.Sprint(log2)}
+					switch {
+					case pan != "":
+						c.Fail("panic", id+".used", pan, det2)
+					case e1 != nil || !bytes.Equal(k1, fk):
+						c.Fail("valid-work-factor-rejected", id+".used", "valid stanza not opened", det2)
+					case e2 == nil || k2 != nil:
+						c.Fail("excessive-or-noncanonical-work-factor-accepted/used-identity", id+".used", "an identity that had opened a valid stanza opens the same stanza relabelled with work factor "+fmt.Sprintf("%q", w.text)+" under maximum "+fmt.Sprint(max), det2)
+					case len(log2) != 0:
+						c.Fail("key-derived-before-rejection", id+".used", "a key was derived for a stanza that must be rejected without work", det2)
 					}
 				}
 				// the same stanza inside a real file (only when the header can carry the argument)
